@@ -12,7 +12,7 @@ CLAIMED = {
     'C02': dict(
         cat='proof', ref='DESIGN 4/C02',
         text='Every function of stream::Parser (from_parser, parse, parse_payload, parse_head, consume_stream, compress, discard_stream, consume_output, set_stream, cmp_input_streams) carries a functional contract over the abstract view (parsed / raw / output queue) and the geometry invariant wf; Verus discharges every clause for all buffer contents, lengths, payload/padding counters and destination sizes. parse_payload: exactly min(payload, available[, room]) bytes move to the stream buffer or to the front of dest, in order, once; parse_head: header dispatch equals the specification-level head_action (stream / skip / hold-back / abort / cant-mpx / values); parse: one call equals the specification run s_run over the unread bytes (state, bytes consumed, bytes appended to the stream buffer, replies, end-of-stream flag, error), proved with a loop invariant relating the run from the initial state to the steps taken so far.',
-        note='Proved per call (parse = s_run on the bytes available; every other method against its whole-view contract). Lemma layer (unit streamlemmas, machine-checked, pure): for ANY sequence of well-formed data records followed by the terminating record, s_run delivers exactly the concatenation of the active stream bodies, consumes every record entirely, reports end-of-stream exactly at the terminator and leaves it unconsumed (lemma_records, lemma_stream_until_end). Read-chunking invariance is a checked lemma as well (lemma_run_split, lemma_any_reads): for every state, every cut x ++ y of the unread bytes (through headers, payloads, padding or GetValues pairs) and every room in the caller buffer, the run over x followed by the run over (unread rest of x) ++ y equals the run over x ++ y, hence any sequence of reads equals one read of the concatenation. Composition only: consume_stream / compress / consume_output between calls keep the raw view (their contracts say so). For dest = Some(buf) the run-level clause covers counts/state/replies and the byte content written to buf is proved at step level (parse_payload, nested-prophecy clause). Trusted: copy_within = memmove, <&mut [u8] as Write>::write (both cross-checked bounded by Kani), RecordHeader::from_bytes contract (proved complete by Kani), 64-bit usize, allocations <= isize::MAX, rewrite rules R1-R13.',
+        note='Proved per call (parse = s_run on the bytes available; every other method against its whole-view contract). Lemma layer (unit streamlemmas, machine-checked, pure): for ANY sequence of well-formed records of any kind - data records of the active stream, stale / foreign-id / unknown-type records (some of them answered), GetValues queries - followed by the terminating record, s_run delivers exactly the concatenation of the active stream bodies, owes exactly the replies of the answered records in arrival order, consumes every record entirely, reports end-of-stream exactly at the terminator and leaves it unconsumed (lemma_s_one_record, lemma_s_records, lemma_s_stream_until_end; hypotheses shown satisfiable by lemma_s_witness). Read-chunking invariance is a checked lemma as well (lemma_run_split, lemma_any_reads): for every state, every cut x ++ y of the unread bytes (through headers, payloads, padding or GetValues pairs) and every room in the caller buffer, the run over x followed by the run over (unread rest of x) ++ y equals the run over x ++ y, hence any sequence of reads equals one read of the concatenation. Composition only: consume_stream / compress / consume_output between calls keep the raw view (their contracts say so). For dest = Some(buf) the run-level clause covers counts/state/replies and the byte content written to buf is proved at step level (parse_payload, nested-prophecy clause). Trusted: copy_within = memmove, <&mut [u8] as Write>::write (both cross-checked bounded by Kani), RecordHeader::from_bytes contract (proved complete by Kani), 64-bit usize, allocations <= isize::MAX, rewrite rules R1-R13.',
         tech=TECH_V),
     'C03': dict(
         cat='proof', ref='DESIGN 4/C03',
